@@ -148,17 +148,35 @@ func (r *Run) classify(e *Exch, by map[int]*OResp) *cls {
 			// validated in this exchange: age restarts from the 304; not needed by rules on unvalidated reuse
 			hv = c.H
 		}
-		var ageVals []string
 		if hv != nil {
-			ageVals = hv.Header.Values("Age")
-			if len(ageVals) == 0 && c.B != nil && hv != c.B {
-				ageVals = c.B.Header.Values("Age")
+			// the Age field stored with the response: the one of the last 304 if it carried one, else whatever an
+			// earlier link of the chain (the response itself or an earlier 304) left in the stored header fields
+			cands := [][]string{}
+			if av := hv.Header.Values("Age"); len(av) > 0 {
+				cands = append(cands, av)
+			} else {
+				cands = append(cands, nil)
+				if c.B != nil && hv != c.B {
+					if av := c.B.Header.Values("Age"); len(av) > 0 {
+						cands = append(cands, av)
+					}
+					for _, o := range r.OResps {
+						if o.Is304 && o.Res == c.B.Res && o.SeqResp > c.B.SeqResp && o.SeqResp < hv.SeqResp {
+							if av := o.Header.Values("Age"); len(av) > 0 {
+								cands = append(cands, av)
+							}
+						}
+					}
+				}
 			}
-			c.ageLo, c.ageHi = currentAge(ageVals, e.Header.Get("Date"), r.Sim.Epoch0, hv.TStart, hv.TResp, e.TInv, e.TRet)
-			if hv != c.B && c.B != nil && len(hv.Header.Values("Age")) == 0 {
-				// a 304 without Age: either value may legitimately be in effect
-				lo2, hi2 := currentAge(nil, e.Header.Get("Date"), r.Sim.Epoch0, hv.TStart, hv.TResp, e.TInv, e.TRet)
-				c.ageLo, c.ageHi = min(c.ageLo, lo2), max(c.ageHi, hi2)
+			first := true
+			for _, av := range cands {
+				lo, hi := currentAge(av, e.Header.Get("Date"), r.Sim.Epoch0, hv.TStart, hv.TResp, e.TInv, e.TRet)
+				if first {
+					c.ageLo, c.ageHi, first = lo, hi, false
+				} else {
+					c.ageLo, c.ageHi = min(c.ageLo, lo), max(c.ageHi, hi)
+				}
 			}
 			c.haveAge = true
 		}
@@ -166,6 +184,23 @@ func (r *Run) classify(e *Exch, by map[int]*OResp) *cls {
 		c.lifeLo, c.lifeHi, c.lifeSrc = lifetime(e.Header, st)
 	}
 	return c
+}
+
+// tainted: an injected store fault returned mutated (possibly still decodable) bytes for this
+// exchange's URI at or before this exchange.
+func (r *Run) tainted(e *Exch) bool {
+	for _, s := range r.Store {
+		if s.Seq > e.SeqRet && e.SeqRet != 0 {
+			break
+		}
+		switch s.Fault {
+		case "trunc", "flip", "corpus", "foreign":
+			if ex := r.exchFor(s.Owner, s.OwnerOp); ex != nil && ex.Op.Res%len(r.Scn.Resources) == e.Op.Res%len(r.Scn.Resources) {
+				return true
+			}
+		}
+	}
+	return false
 }
 
 func (c *cls) guard(r *Run) int64 {
@@ -205,7 +240,9 @@ func Judge(r *Run) *Judged {
 			continue
 		}
 		judgeFailOpen(r, j, c)
-		if c.e.Header == nil {
+		if c.e.Header == nil || r.tainted(c.e) {
+			// bytes handed to the cache by an injected store fault may decode into anything: content rules
+			// are off for exchanges on that URI from the mutated read onwards (fail-open rules stay on)
 			continue
 		}
 		judgeFreshness(r, j, c)
@@ -499,7 +536,12 @@ func judgeValidation(r *Run, j *Judged, c *cls, by map[int]*OResp) {
 	}
 	// fields named by a qualified no-cache are not replayed without validation
 	if c.B != nil && c.fg304 == nil {
-		if v, ok := parseCC(c.B.Header)["no-cache"]; ok && v != "" {
+		// (the directive as it stands in the stored header fields now: a later 304 may have replaced it)
+		eff := c.B.Header
+		if c.H != nil && c.H != c.B && len(c.H.Header.Values("Cache-Control")) > 0 {
+			eff = c.H.Header
+		}
+		if v, ok := parseCC(eff)["no-cache"]; ok && v != "" {
 			j.count("C02", "qualified-nocache-field-replayed")
 			for _, f := range strings.Split(v, ",") {
 				f = http.CanonicalHeaderKey(strings.TrimSpace(f))
@@ -556,7 +598,12 @@ func judgeVary(r *Run, j *Judged, c *cls) {
 	if !c.stored || c.B == nil || c.method != "GET" {
 		return
 	}
-	fields, star := varyFields(c.B.Header)
+	// the Vary field in effect is the one of the stored header fields as served (a 304 may have replaced it)
+	vh := c.B.Header
+	if c.H != nil && c.H != c.B && len(c.H.Header.Values("Vary")) > 0 {
+		vh = c.H.Header
+	}
+	fields, star := varyFields(vh)
 	if star {
 		j.count("C04", "vary-star-unvalidated")
 		if c.fg304 == nil {
@@ -570,7 +617,7 @@ func judgeVary(r *Run, j *Judged, c *cls) {
 	for _, f := range fields {
 		a, b := meaningOf(f, e.Req.Header.Values(f)), meaningOf(f, c.B.Req.Header.Values(f))
 		if a != b {
-			j.fail("C04", "wrong-variant", e, "", "stored response sid=%d was obtained with %s=%q but is returned for a request with %s=%q (Vary: %s)", c.B.SID, f, c.B.Req.Header.Values(f), f, e.Req.Header.Values(f), c.B.Header.Get("Vary"))
+			j.fail("C04", "wrong-variant", e, "", "stored response sid=%d was obtained with %s=%q but is returned for a request with %s=%q (Vary: %s)", c.B.SID, f, c.B.Req.Header.Values(f), f, e.Req.Header.Values(f), vh.Get("Vary"))
 			return
 		}
 	}
@@ -588,54 +635,92 @@ func judgeFidelity(r *Run, j *Judged, c *cls) {
 		j.fail("C05", "stored-copy-differs", e, "status", "stored response sid=%d has status %d, origin sent %d", c.B.SID, e.Status, c.B.Status)
 	}
 	hop := canonHopByHop(c.B.Header)
-	var hop2 map[string]bool
+	// header provenance chain: the 304s that may have freshened B up to (and including) H
+	var chain []*OResp
 	if c.H != nil && c.H != c.B {
-		hop2 = canonHopByHop(c.H.Header)
+		for _, o := range r.OResps {
+			if o.Is304 && o.Res == c.B.Res && o.SeqResp > c.B.SeqResp && o.SeqResp <= c.H.SeqResp {
+				chain = append(chain, o)
+			}
+		}
 	}
 	ignore := map[string]bool{"Age": true, "X-Httpcache-Status": true, "X-From-Cache": true, "Content-Length": true}
 	qualified := map[string]bool{}
-	if v, ok := parseCC(c.B.Header)["no-cache"]; ok && v != "" {
-		for _, f := range strings.Split(v, ",") {
-			qualified[http.CanonicalHeaderKey(strings.TrimSpace(f))] = true
+	for _, src := range append([]*OResp{c.B}, chain...) {
+		if v, ok := parseCC(src.Header)["no-cache"]; ok && v != "" {
+			for _, f := range strings.Split(v, ",") {
+				qualified[http.CanonicalHeaderKey(strings.TrimSpace(f))] = true
+			}
 		}
 	}
-	for k, want := range c.B.Header {
-		if hop[k] || ignore[k] {
+	// candidates(k): the values field k may legitimately have; if the last 304 carried it, only that one
+	candidates := func(k string) [][]string {
+		if c.H != nil && c.H != c.B {
+			if hv, ok := c.H.Header[k]; ok && !canonHopByHop(c.H.Header)[k] {
+				return [][]string{hv}
+			}
+		}
+		var out [][]string
+		if v, ok := c.B.Header[k]; ok && !hop[k] {
+			out = append(out, v)
+		}
+		for _, o := range chain {
+			if v, ok := o.Header[k]; ok && !canonHopByHop(o.Header)[k] {
+				out = append(out, v)
+			}
+		}
+		return out
+	}
+	dateSupplied := false
+	for _, src := range append([]*OResp{c.B}, chain...) {
+		if _, ok := parseDate(src.Header.Get("Date")); !ok {
+			dateSupplied = true // some link of the chain came without a usable Date: the cache had to supply one
+		}
+	}
+	names := map[string]bool{}
+	for k := range c.B.Header {
+		names[k] = true
+	}
+	for _, o := range chain {
+		for k := range o.Header {
+			names[k] = true
+		}
+	}
+	sortedNames := make([]string, 0, len(names))
+	for k := range names {
+		sortedNames = append(sortedNames, k)
+	}
+	sort.Strings(sortedNames)
+	for _, k := range sortedNames {
+		if ignore[k] || (k == "Date" && dateSupplied) {
 			continue
 		}
-		if c.H != nil && c.H != c.B {
-			if hv, ok := c.H.Header[k]; ok && !hop2[k] {
-				want = hv
-			}
+		cands := candidates(k)
+		if len(cands) == 0 {
+			continue // hop-by-hop everywhere it occurred
 		}
 		got := e.Header[k]
-		if k == "Date" {
-			if _, ok := parseDate(want[0]); !ok {
-				continue // the cache had to supply a Date
-			}
-		}
 		if qualified[k] && len(got) == 0 {
 			continue // stripped because of no-cache="field"
 		}
-		if !reflect.DeepEqual(got, want) {
-			j.fail("C05", "stored-copy-differs", e, "header", "stored response sid=%d: field %s is %q, origin sent %q", c.B.SID, k, got, want)
+		okv := false
+		for _, w := range cands {
+			if reflect.DeepEqual(got, w) {
+				okv = true
+			}
+		}
+		if !okv {
+			j.fail("C05", "stored-copy-differs", e, "header", "stored response sid=%d: field %s is %q, origin sent %q", c.B.SID, k, got, cands)
 			break
 		}
 	}
 	// fields the origin never sent must not appear (beyond the cache's own)
 	for k, got := range e.Header {
-		if ignore[k] || k == "Date" || k == "Connection" {
+		if ignore[k] || k == "Date" || k == "Connection" || names[k] {
 			continue
 		}
-		_, inB := c.B.Header[k]
-		inH := false
-		if c.H != nil {
-			_, inH = c.H.Header[k]
-		}
-		if !inB && !inH {
-			j.fail("C05", "stored-copy-differs", e, "extra-header", "stored response sid=%d carries field %s=%q that the origin never sent", c.B.SID, k, got)
-			break
-		}
+		j.fail("C05", "stored-copy-differs", e, "extra-header", "stored response sid=%d carries field %s=%q that the origin never sent", c.B.SID, k, got)
+		break
 	}
 	if e.BodyRead {
 		if e.BodyErr != "" || !bytes.Equal(e.Body, c.B.Body) {
@@ -679,7 +764,7 @@ func judgeStatusAge(r *Run, j *Judged, c *cls) {
 		switch st {
 		case "HIT":
 		case "STALE":
-			if c.freshForSure(r) {
+			if c.freshForSure(r) && !c.reqCC.has("max-age") && !c.reqCC.has("min-fresh") {
 				bad("fresh stored response served without origin contact")
 			}
 		default:
@@ -760,27 +845,25 @@ func judgeSIE(r *Run, j *Judged, c *cls, by map[int]*OResp) {
 		return
 	}
 	u := c.fgFail
-	// was it a validation of B? the cache added B's validators, or B has none to add
-	et, lm := B.Header.Get("Etag"), B.Header.Get("Last-Modified")
-	if (et != "" && u.Req.Header.Get("If-None-Match") != et) || (lm != "" && u.Req.Header.Get("If-Modified-Since") != lm) {
-		return
-	}
 	if r.hasStoreFault(e) {
 		return
 	}
-	// the stored header fields (B, possibly freshened by an earlier 304 which then defines H)
-	sh := B.Header
+	// the stored header fields in effect: B's, freshened by the 304s that validated it before this exchange
+	sh, last := r.effectiveStored(B, e.SeqInv)
+	if (sh.Get("Etag") != "" && u.Req.Header.Get("If-None-Match") != sh.Get("Etag")) ||
+		(sh.Get("Etag") == "" && sh.Get("Last-Modified") != "" && u.Req.Header.Get("If-Modified-Since") != sh.Get("Last-Modified")) {
+		return
+	}
 	scc := parseCC(sh)
-	// age/lifetime of B at this exchange
-	aLo, aHi := currentAge(B.Header.Values("Age"), firstNonEmpty(B.Header.Get("Date"), r.httpTime(B.TResp)), r.Sim.Epoch0, B.TStart, B.TResp, e.TInv, e.TRet)
-	if _, ok := parseDate(B.Header.Get("Date")); !ok {
-		aLo, aHi = currentAge(B.Header.Values("Age"), r.httpTime(B.TResp), r.Sim.Epoch0, B.TStart, B.TResp, e.TInv, e.TRet)
-	}
-	hdrForLife := sh.Clone()
 	if _, ok := parseDate(sh.Get("Date")); !ok {
-		hdrForLife.Set("Date", r.httpTime(B.TResp))
+		sh.Set("Date", r.httpTime(last.TResp))
 	}
-	lLo, lHi, _ := lifetime(hdrForLife, B.Status)
+	aLo, aHi := currentAge(sh.Values("Age"), sh.Get("Date"), r.Sim.Epoch0, last.TStart, last.TResp, e.TInv, e.TRet)
+	if last != B && len(last.Header.Values("Age")) == 0 {
+		lo2, hi2 := currentAge(nil, sh.Get("Date"), r.Sim.Epoch0, last.TStart, last.TResp, e.TInv, e.TRet)
+		aLo, aHi = min(aLo, lo2), max(aHi, hi2)
+	}
+	lLo, lHi, _ := lifetime(sh, B.Status)
 	failKind := u.ErrKind
 	if u.Resp != nil {
 		failKind = strconv.Itoa(u.Resp.Status)
@@ -802,8 +885,8 @@ func judgeSIE(r *Run, j *Judged, c *cls, by map[int]*OResp) {
 	}
 	_, ncQualified := scc["no-cache"]
 	forbidden := scc.has("must-revalidate") || (ncQualified && scc["no-cache"] == "")
-	if c.reqCC.has("no-cache") {
-		return // request no-cache + stale-if-error: the statement does not settle it
+	if c.reqCC.has("no-cache") || c.reqCC.has("max-age") || c.reqCC.has("min-fresh") {
+		return // request no-cache / max-age / min-fresh + stale-if-error: the statement does not settle what "staleness" is then
 	}
 	g := c.guard(r)
 	servedB := c.stored && c.B == B
@@ -841,6 +924,40 @@ func judgeSIE(r *Run, j *Judged, c *cls, by map[int]*OResp) {
 			j.fail("C13", "sie-wrongly-served", e, sig, "validation of stored sid=%d failed (%s) and the stored response was returned although %s (stored cc=%q request cc=%q staleness>=%s)", B.SID, failKind, why, sh.Get("Cache-Control"), e.Req.Header.Get("Cache-Control"), ns(staleLo))
 		}
 	}
+}
+
+// effectiveStored: the header fields RFC 9111 §4.3.4 prescribes for stored response B at sequence
+// point `before`: B's own, replaced field by field by every 304 that validated B before then
+// (except Content-Length and hop-by-hop fields); `last` is the response whose exchange defines the
+// request/response times (the last such 304, or B).
+func (r *Run) effectiveStored(B *OResp, before uint64) (hdr http.Header, last *OResp) {
+	hdr, last = B.Header.Clone(), B
+	et, lm := B.Header.Get("Etag"), B.Header.Get("Last-Modified")
+	for _, o := range r.OResps {
+		if !o.Is304 || o.Res != B.Res || o.SeqResp <= B.SeqResp || o.SeqResp >= before {
+			continue
+		}
+		inm, ims := o.Req.Header.Get("If-None-Match"), o.Req.Header.Get("If-Modified-Since")
+		if !((et != "" && inm == et) || (et == "" && lm != "" && ims == lm)) {
+			continue
+		}
+		hop := canonHopByHop(o.Header)
+		for k, v := range o.Header {
+			if hop[k] || k == "Content-Length" {
+				continue
+			}
+			hdr[k] = v
+		}
+		last = o
+		et2, lm2 := hdr.Get("Etag"), hdr.Get("Last-Modified")
+		if et2 != "" {
+			et = et2
+		}
+		if lm2 != "" {
+			lm = lm2
+		}
+	}
+	return hdr, last
 }
 
 func firstNonEmpty(a, b string) string {
@@ -948,7 +1065,7 @@ func judgeSWR(r *Run, j *Judged, c *cls) {
 		if r.Scn.SWRSet && r.Scn.SWRNs > 0 {
 			T = time.Duration(r.Scn.SWRNs)
 		}
-		if u.CancelAt < e.TInv+T || u.CancelAt > e.TRet+T {
+		if u.CancelAt < e.TInv+T || u.CancelAt > max(e.TRet+T, u.TStart) {
 			j.fail("C20", "timeout-wrong", e, "", "background revalidation was cancelled at %s; expected between %s and %s (timeout %s, configured set=%v value=%s)", u.CancelAt, e.TInv+T, e.TRet+T, T, r.Scn.SWRSet, time.Duration(r.Scn.SWRNs))
 		}
 		r.probe("swr-timeout-fired")
@@ -1051,7 +1168,14 @@ func judgeServedForbidden(r *Run, j *Judged, c *cls) {
 	e := c.e
 	if c.method == "GET" && e.Req.Header.Get("If-None-Match") == "" && e.Req.Header.Get("If-Modified-Since") == "" && e.Req.Header.Get("Range") == "" {
 		j.count("C06", "unconditional-304")
-		if e.Status == 304 {
+		// (an origin that answers 304 to an unconditional request is merely forwarded)
+		cacheMade := c.stored
+		for _, u := range c.fg {
+			if u.Req.Header.Get("If-None-Match") != "" || u.Req.Header.Get("If-Modified-Since") != "" {
+				cacheMade = true
+			}
+		}
+		if e.Status == 304 && cacheMade {
 			j.fail("C06", "unconditional-304", e, "", "unconditional GET answered with 304 (X-Httpcache-Status=%v, stored=%v)", c.status, c.stored)
 		}
 	}
